@@ -23,7 +23,7 @@ inductive CmpOp where
   deriving DecidableEq, Inhabited
 
 structure Stmt where
-  attr : String
+  attr : List String          -- the dotted attribute path, split at the dots (`attribute.split(".")`)
   op : CmpOp
   ref : JVal
   deriving DecidableEq, Inhabited
@@ -43,7 +43,7 @@ inductive Dir where
   deriving DecidableEq, Inhabited
 
 structure OrderKey where
-  attr : String
+  attr : List String          -- `attribute.split(".")`: one element = a bare key name
   dir : Dir
   deriving DecidableEq, Inhabited
 
@@ -147,7 +147,7 @@ def getPath : JVal → List String → Except Err JVal
 
 /-- one statement on one record, exceptions visible -/
 def stmtValue (obj : JVal) (s : Stmt) : Except Err Bool := do
-  let v ← getPath obj (s.attr.splitOn ".")
+  let v ← getPath obj s.attr
   evalOp s.op v s.ref
 
 /-- `_statement_matches`: KeyError / TypeError -> does not match -/
@@ -267,12 +267,16 @@ def utilsGetNested : JVal → List String → Except Err JVal
       | .str s => if isInfixL k.toList s.toList then throw .typeError else pure .null
       | _ => throw .typeError
 
-/-- `build_key(item, order)` -/
+/-- `build_key(item, order)`: a dotted attribute (`"." in attribute`, i.e. at least two path elements) is resolved
+inside the message, a bare name by depth-first search through the whole record -/
 def orderKeyOf (r : Record) (k : OrderKey) : Except Err JVal :=
-  if k.attr.contains '.' then utilsGetNested r.obj (k.attr.splitOn ".")
-  else match r.toJVal with
-    | .dict kvs => utilsGetNested r.toJVal (findAttrD k.attr kvs)
+  match k.attr with
+  | [] => pure .null
+  | [a] =>
+    match r.toJVal with
+    | .dict kvs => utilsGetNested r.toJVal (findAttrD a kvs)
     | _ => pure .null
+  | path => utilsGetNested r.obj path
 
 /-- stable insertion, ascending: `x` goes after every element that is not greater (`<` is the only comparison) -/
 def insAsc {α : Type} (x : α × JVal) : List (α × JVal) → Except Err (List (α × JVal))
